@@ -38,13 +38,14 @@ class C20(Prop):
         # round 5: inventory of every uid/euid write in the driver; interleaved statement order of the anchor functions
         "NV.C20.tie_uid_writes_governed", "NV.C20.tie_uid_write_inventory", "NV.C20.tie_uid_rules_all_used", "NV.C20.tie_uid_records_never_renamed",
         "NV.C20.tie_seteuid_order", "NV.C20.tie_export_order", "NV.C20.tie_set_master_shape", "NV.C20.tie_reload_shape",
-        "NV.C20.tie_load_tail_shape", "NV.C20.tie_clone_shape", "NV.C20.tie_init_object_shape", "NV.C20.tie_load_virtual_shape",
+        "NV.C20.tie_load_tail_shape", "NV.C20.tie_clone_shape", "NV.C20.tie_init_object_shape", "NV.C20.tie_load_virtual_shape", "NV.C20.tie_bind_shape",
     ]
     consts = [("autoTrustBackbone", "NV_AUTO_TRUST_BACKBONE"), ("autoSeteuid", "NV_AUTO_SETEUID"),
               ("tNumber", "T_NUMBER"), ("tString", "T_STRING"), ("msMudlibLimbo", "MS_MUDLIB_LIMBO"),
               ("tObject", "T_OBJECT"), ("oDestructed", "O_DESTRUCTED"), ("oClone", "O_CLONE"), ("oVirtual", "O_VIRTUAL"),
-              ("oHeartBeat", "O_HEART_BEAT")]
-    const_headers = ["lib/efuns/options.h", "lpc/types.h", "lpc/object.h", "src/simulate.h"]
+              ("oHeartBeat", "O_HEART_BEAT"), ("fpLocal", "FP_LOCAL"), ("fpNotBindable", "FP_NOT_BINDABLE"),
+              ("fpFunctional", "FP_FUNCTIONAL")]
+    const_headers = ["lib/efuns/options.h", "lpc/types.h", "lpc/object.h", "lpc/include/function.h", "src/simulate.h"]
     const_prelude = ("#ifdef AUTO_TRUST_BACKBONE\n#define NV_AUTO_TRUST_BACKBONE 1\n#else\n#define NV_AUTO_TRUST_BACKBONE 0\n#endif\n"
                      "#ifdef AUTO_SETEUID\n#define NV_AUTO_SETEUID 1\n#else\n#define NV_AUTO_SETEUID 0\n#endif\n")
     quick_n = 400
@@ -107,7 +108,8 @@ class C20(Prop):
         return c20_extract.generate(bdir, tn)
 
     # ---- configurations: which verification master / simul_efun object a case runs under (`cfg` first line) ----
-    CFG_FLAGS = ("nobb", "noroot", "simul")
+    CFG_FLAGS = ("nobb", "noroot", "novb", "simul")
+    MASTER_MACROS = {"nobb": "C20_NO_BB", "noroot": "C20_NO_ROOT", "novb": "C20_NO_VB"}
 
     @staticmethod
     def cfg_key(case):
@@ -124,11 +126,18 @@ class C20(Prop):
         self.conf = E.make_mudlib(ctx.rundir, master="/c20/master.c")
         base = open(self.conf).read()
         self.confs = {(): self.conf}
-        for n in range(1, 8):
+        mud = os.path.join(ctx.rundir, "mudlib")
+        for n in range(1, 1 << len(self.CFG_FLAGS)):
             key = tuple(f for i, f in enumerate(self.CFG_FLAGS) if n >> i & 1)
             t = base
-            master = "/c20/master" + ("_nobb" if "nobb" in key else "") + ("_noroot" if "noroot" in key else "") + ".c"
-            t = t.replace("/c20/master.c", master)
+            mflags = [f for f in key if f in self.MASTER_MACROS]
+            if mflags:
+                # master variant: the same master with some applies compiled out
+                master = "/c20/master_%s.c" % "_".join(mflags)
+                with open(os.path.join(mud, master.lstrip("/")), "w") as f:
+                    f.write("// C20 verification master variant (cfg %s), written by props/c20.py\n" % " ".join(mflags) +
+                            "".join("#define %s\n" % self.MASTER_MACROS[x] for x in mflags) + '#include "/c20/master.c"\n')
+                t = t.replace("/c20/master.c", master)
             if "simul" in key:
                 t2 = re.sub(r"(?m)^(SimulEfunFile\s+)\S+", r"\g<1>/c20/simul.c", t)
                 if t2 == t:
@@ -321,6 +330,9 @@ class C20(Prop):
                            "do u2a bind,u1a,clone,c5,/c20/u1/v1", "pol cf bb drop+s:Backbone", "do u2a bind,m,load,/c20/bb/a"])
         mk("bind-simul", ["cfg simul noroot", "do se bind,m,load,/c20/u1/a", "do m bind,se,load,/c20/u1/b", "do se seteuid,s:zed",
                           "do m bind,se,load,/c20/u1/b", "pol vb se * i:0", "do se bind,m,clone,c1,/c20/u1/a"])
+        # master without valid_bind(): apply_master_ob returns NULL = refusal; binding to oneself still needs nobody
+        mk("bind-novb", ["cfg novb", "do m load,/c20/u1/a", "do m load,/c20/u2/a", "do u1a seteuid,s:u1", "do u2a bind,u1a,load,/c20/u1/b",
+                         "do u1a bind,u1a,load,/c20/u1/b", "do u1a bind,m,clone,c1,/c20/u1/b", "do m bind,u1a,clone,c2,/c20/u1/b"])
         # ---- round 5: other configurations of the mudlib (first line `cfg ...`) ---------------------------------------
         # master without get_bb_uid(): set_master sets no backbone uid, a "Backbone" answer is an ordinary name
         mk("cfg-nobb", ["cfg nobb", "do m load,/c20/bb/a", "do bba seteuid,s:u1", "do bba clone,c1,/c20/bb/b", "pol cf u1 s:Backbone",
@@ -541,7 +553,7 @@ class C20(Prop):
              "seteuid_zero": 0, "export_ok": 0, "export_refused": 0, "export_error": 0, "noeuid_load_error": 0,
              "noeuid_clone_error": 0, "compile_object_calls": 0, "virtual_handed_out": 0, "funptr_ops": 0, "funptr_noeuid_refused": 0,
              "master_reloads": 0, "master_reload_refused": 0, "export_onto_self": 0, "nested_ops": 0, "nested_creations": 0, "nested_noeuid_refused": 0, "max_nesting": 0, "backbone_grants": 0, "policy_errors": 0, "nobj": 0, "reloads": 0,
-             "crash": 0, "cfg_nobb": 0, "cfg_noroot": 0, "cfg_simul": 0, "simul_actor_ops": 0, "simul_dest_error": 0, "cf_callback_drops": 0,
+             "crash": 0, "cfg_nobb": 0, "cfg_noroot": 0, "cfg_novb": 0, "cfg_simul": 0, "simul_actor_ops": 0, "simul_dest_error": 0, "cf_callback_drops": 0,
              "bind_ops": 0, "bind_asked": 0, "bind_denied": 0, "bind_self": 0}
         for c in cases:
             for f in self.cfg_key(c):
